@@ -65,7 +65,7 @@ def cases(tier, rng):
             mask = [int(s >= 2) for s in so]
             hm = 1
         k = 1903 if mode == "vectorize" else 1902
-        yield {"k": k, "args": [ds, nets.topo_order(ds), [hm], mask, [rng.choice([0, 0, 2, 3])]],
+        yield {"k": k, "args": [ds, nets.topo_order(ds), [hm], mask, [rng.choice([0, 0, 1, 1, 2, 3, 5])]],
                "call": {"nr": nr, "nc": nc, "flw": flw, "mode": mode, "custom_xy": rng.random() < 0.4}, "group": f"raster-{mode}"}
 
 
@@ -93,7 +93,14 @@ def impl(case):
         return [idx_list(p) for p in v] if st == "ok" else [[-2], [st]]
     import pyflwdir
     nr, nc = call["nr"], call["nc"]
-    flw = pyflwdir.from_array(np.array(call["flw"], dtype=np.uint8).reshape(nr, nc), ftype="d8")
+    # default vertex coordinates are the cell centres under the raster's transform: the identity, a far non-square grid and a
+    # rotated grid (round-5 seed: per-axis coordinates dropped the rotation terms)
+    from affine import Affine
+    tr = [Affine(1.0, 0.0, 0.0, 0.0, -1.0, 0.0), Affine(30.0, 0.0, 1000.0, 0.0, -10.0, 500.0),
+          Affine.translation(5.0, 7.0) * Affine.rotation(30.0) * Affine.scale(10.0, -10.0)][sum(call["flw"]) % 3]
+    flw = pyflwdir.from_array(np.array(call["flw"], dtype=np.uint8).reshape(nr, nc), ftype="d8", transform=tr)
+    centre = lambda i: (tr.a * (i % nc + 0.5) + tr.b * (i // nc + 0.5) + tr.c, tr.d * (i % nc + 0.5) + tr.e * (i // nc + 0.5) + tr.f)
+    near = lambda p, q: abs(p[0] - q[0]) <= 1e-9 * (1 + abs(q[0])) and abs(p[1] - q[1]) <= 1e-9 * (1 + abs(q[1]))
     kw = {}
     xs = ys = None
     if call["custom_xy"]:
@@ -126,9 +133,15 @@ def impl(case):
             if co[0] != (float(xs.flat[i0]), float(ys.flat[i0])) or co[-1] != (float(xs.flat[i1]), float(ys.flat[i1])):
                 return [[-3], ["custom coordinates not used"]]
         else:
-            r0, c0 = divmod(i0, nc)
-            if co[0] != (c0 + 0.5, -(r0 + 0.5)):
-                return [[-3], ["first vertex is not the centre of the first cell"]]
+            if not near(co[0], centre(i0)) or not near(co[-1], centre(i1)):
+                return [[-3], [f"first / last vertex {co[0]} {co[-1]} is not the centre of cells {i0} / {i1}"]]
+            # every vertex is a cell centre and consecutive vertices are linked cells
+            cur = i0
+            for p in co[1:]:
+                nxt = ds[cur]
+                if nxt < 0 or not near(p, centre(nxt)):
+                    return [[-3], [f"vertex {p} after cell {cur} is not the centre of its downstream cell {nxt}"]]
+                cur = nxt
         if call["mode"] == "vectorize":
             if len(co) != 2:
                 return [[-3], ["vectorize feature with != 2 vertices"]]
